@@ -9,7 +9,7 @@
 (***************************************************************************)
 EXTENDS ValueAlgebra
 
-TypedFamily == {"typed", "newtype", "generic", "seq"}      \* subclasses of TypedValue
+TypedFamily == {"typed", "newtype", "generic", "seq", "typeddict"}      \* subclasses of TypedValue
 
 \* ---- type_object.py ------------------------------------------------------
 IsProtocol(c) == c = "Iterable"          \* per typeshed; Sequence and Mapping are ABCs, not protocols
@@ -53,6 +53,8 @@ NParams(c) == CASE c \in {"list", "set", "tuple", "Sequence", "Iterable"} -> 1
 ImplOwnArgs(B) ==
     CASE B.k = "generic" -> B.args
       [] B.k = "seq" -> IF B.ms = << >> THEN <<AnyU>> ELSE << ImplUnite([i \in 1..Len(B.ms) |-> B.ms[i].t]) >>
+      \* TypedDictValue.__init__ (value.py:1427): GenericValue(dict, (str, union of the entry types))
+      [] B.k = "typeddict" -> << Typed("str"), IF B.items = << >> THEN AnyU ELSE ImplUnite([i \in 1..Len(B.items) |-> B.items[i].t]) >>
       [] OTHER -> [i \in 1..NParams(B.c) |-> AnyG]     \* bare class: missing arguments are Any
 
 \* TypedValue.get_generic_args_for_type (value.py:922) over the typeshed generic bases;
@@ -71,7 +73,7 @@ ImplGenericArgsFor(B, c) ==
        ELSE NotFound
 
 RECURSIVE ImplCA(_, _, _), ImplBaseCA(_, _, _), ImplTypedCA(_, _, _), ImplGenericCA(_, _, _), ImplSeqCA(_, _, _),
-          ImplUnionCA(_, _, _)
+          ImplUnionCA(_, _, _), ImplTDCA(_, _, _)
 
 \* Value.can_assign (value.py:89)
 ImplBaseCA(A, B, x) ==
@@ -113,6 +115,33 @@ ImplUnionCA(A, B, x) ==
     ELSE IF B.k = "any" /\ ~x THEN TRUE
     ELSE \E i \in 1..Len(A.ms) : ImplCA(A.ms[i], B, x)
 
+\* TypedDictValue.can_assign (value.py:1464); both sides open (extra_keys None)
+\* (FixTDStringKeys = FALSE is the behaviour before the repair "fix: TypedDict rejects a literal dict with a
+\*  non-string key": kept as a sensitivity switch)
+FixTDStringKeys == TRUE
+TDIdx(B, key) == LET hits == {i \in 1..Len(B.items) : B.items[i].key = key} IN IF hits = {} THEN 0 ELSE CHOOSE i \in hits : TRUE
+ImplTDCA(A, B, x) ==
+    IF B.k = "typeddict"
+    THEN \A i \in 1..Len(A.items) :                                         \* value.py:1530-1584
+            LET e == A.items[i]
+                j == TDIdx(B, e.key)
+            IN IF j = 0
+               THEN ~e.req /\ e.ro /\ ImplCA(e.t, Typed("object"), x)         \* other.extra_keys or TypedValue(object)
+               ELSE LET f == B.items[j]
+                    IN /\ ~(e.req /\ ~f.req)
+                       /\ ~(~e.req /\ ~e.ro /\ f.req)
+                       /\ ~(~e.ro /\ f.ro)
+                       /\ ImplCA(e.t, f.t, x)
+                       /\ (e.ro \/ ImplCA(f.t, e.t, x))
+    ELSE IF B.k = "known" /\ B.o.c = "dict"
+    THEN /\ (FixTDStringKeys => \A kk \in DictKeys(B.o) : kk.c = "str")      \* value.py:1612 (fix: non-string keys)
+         /\ \A i \in 1..Len(A.items) :                                      \* value.py:1605-1618
+            LET e == A.items[i]
+                hits == {j \in 1..Len(B.o.items) : B.o.items[j].key.c = "str" /\ B.o.items[j].key.v = e.key}
+            IN IF hits = {} THEN ~e.req
+               ELSE \A j \in hits : ImplCA(e.t, Known(B.o.items[j].val), x)
+    ELSE ImplGenericCA(A, B, x)                                              \* super().can_assign
+
 ImplCA(A, B, x) ==
     CASE A.k = "any" -> TRUE                                             \* AnyValue.can_assign (value.py:424)
       [] A.k = "known" ->                                                \* KnownValue.can_assign (value.py:582)
@@ -131,6 +160,7 @@ ImplCA(A, B, x) ==
             ELSE IF B.k \in TypedFamily /\ B.c = "type" THEN TRUE
             ELSE ImplBaseCA(A, B, x)
       [] A.k = "union" -> ImplUnionCA(A, B, x)
+      [] A.k = "typeddict" -> ImplTDCA(A, B, x)
 
 (***************************************************************************)
 (* What the properties demand                                              *)
@@ -216,8 +246,26 @@ HasMergedSiblings(o) ==
        \/ \E i \in 1..Len(es) : HasMergedSiblings(es[i])
 Dev_MergedSiblingLiterals(o) == HasMergedSiblings(o)
 
+\* objects the assignability properties quantify over: the shared universe plus the dicts for the TypedDict terms
+AObjects == Objects \cup TDObjs
+
+\* Known deviation: a TypedDict is built as GenericValue(dict, (str, union of the entry types)) and falls back to
+\* GenericValue.can_assign (value.py:1632), so (1) a TypedDict accepts a plain dict[str, V] / dict whose value type fits
+\* although such a dict need not have the required keys, and (2) dict[str, V] / Mapping[str, V] accepts a TypedDict whose
+\* declared value types fit V although undeclared keys of an open TypedDict may hold anything.
+RECURSIVE MentionsTD(_)
+MentionsTD(T) ==
+    CASE T.k = "typeddict" -> TRUE
+      [] T.k = "generic" -> \E i \in 1..Len(T.args) : MentionsTD(T.args[i])
+      [] T.k = "seq" -> \E i \in 1..Len(T.ms) : MentionsTD(T.ms[i].t)
+      [] T.k = "subclass" -> MentionsTD(T.t)
+      [] T.k = "union" -> \E i \in 1..Len(T.ms) : MentionsTD(T.ms[i])
+      [] OTHER -> FALSE
+PlainDictish(T) == Mentions(T, "dict") \/ Mentions(T, "Mapping")
+Dev_TypedDictAsPlainDict(A, B) == (MentionsTD(A) /\ PlainDictish(B)) \/ (PlainDictish(A) /\ MentionsTD(B))
+
 C03_Exact(A, o) == ImplCA(A, Known(o), FALSE) = Member(o, A)
-C04_Sound(A, B) == (ImplCA(A, B, FALSE) /\ ~Lenient(A, B) /\ ~Dev_EnumMetaclassProtocol(A, B)) => \A o \in Objects : Member(o, B) => Member(o, A)
+C04_Sound(A, B) == (ImplCA(A, B, FALSE) /\ ~Lenient(A, B) /\ ~Dev_EnumMetaclassProtocol(A, B) /\ ~Dev_TypedDictAsPlainDict(A, B)) => \A o \in AObjects : Member(o, B) => Member(o, A)
 C04_Refl(A) == ImplCA(A, A, FALSE)
 C04_NeverBottom(A) == ImplCA(A, Never, FALSE)
 C04_ObjectTop(B) == ImplCA(Typed("object"), B, FALSE)
@@ -235,13 +283,13 @@ CONSTANTS Mode,     \* "pairs" (C04) or "objects" (C03)
 VARIABLES stage, ta, tb, ob
 vars == <<stage, ta, tb, ob>>
 
-Space == IF Depth = 1 THEN D1 ELSE D1 \cup D2Static
+Space == (IF Depth = 1 THEN D1 ELSE D1 \cup D2Static) \cup TDTerms
 
 Init == stage = "a" /\ ta = Never /\ tb = Never /\ ob = NONE
 ChooseA == stage = "a" /\ \E t \in Space : ta' = t /\ stage' = "b" /\ UNCHANGED <<tb, ob>>
 ChooseB == Mode = "pairs" /\ stage = "b" /\ \E t \in Space : tb' = t /\ stage' = "done" /\ UNCHANGED <<ta, ob>>
 \* C03: pair the type with every object of the universe
-ChooseObj == Mode = "objects" /\ stage = "b" /\ C03Domain(ta) /\ \E o \in Objects : ob' = o /\ stage' = "doneobj" /\ UNCHANGED <<ta, tb>>
+ChooseObj == Mode = "objects" /\ stage = "b" /\ C03Domain(ta) /\ \E o \in AObjects : ob' = o /\ stage' = "doneobj" /\ UNCHANGED <<ta, tb>>
 Next == ChooseA \/ ChooseB \/ ChooseObj
 
 Static(T) == ~HasAny(T)
@@ -251,8 +299,8 @@ Done == stage = "done"
 (* Invariants over the generated pairs                                     *)
 (***************************************************************************)
 InvSound == (Done /\ Static(ta) /\ Static(tb)) => C04_Sound(ta, tb)
-InvSoundStrict == (Done /\ Static(ta) /\ Static(tb) /\ ImplCA(ta, tb, FALSE) /\ ~Lenient(ta, tb)) => \A o \in Objects : Member(o, tb) => Member(o, ta)
-InvSoundNoLeniency == (Done /\ Static(ta) /\ Static(tb) /\ ImplCA(ta, tb, FALSE)) => \A o \in Objects : Member(o, tb) => Member(o, ta)
+InvSoundStrict == (Done /\ Static(ta) /\ Static(tb) /\ ImplCA(ta, tb, FALSE) /\ ~Lenient(ta, tb)) => \A o \in AObjects : Member(o, tb) => Member(o, ta)
+InvSoundNoLeniency == (Done /\ Static(ta) /\ Static(tb) /\ ImplCA(ta, tb, FALSE)) => \A o \in AObjects : Member(o, tb) => Member(o, ta)
 InvRefl == stage = "b" => C04_Refl(ta)
 InvNeverBottom == stage = "b" => C04_NeverBottom(ta)
 InvObjectTop == (stage = "b" /\ Static(ta)) => C04_ObjectTop(ta)
@@ -262,5 +310,5 @@ InvAnyBoth == stage = "b" => C04_AnyBoth(ta)
 InvExcludeAnyMonotone == Done => C04_ExcludeAnyMonotone(ta, tb)
 InvObjExact == stage = "doneobj" => (C03_Exact(ta, ob) \/ Dev_MergedSiblingLiterals(ob))
 InvObjExactStrict == stage = "doneobj" => C03_Exact(ta, ob)
-InvLiteralExact == (stage = "b" /\ C03Domain(ta)) => \A o \in Objects : (C03_Exact(ta, o) \/ Dev_MergedSiblingLiterals(o))
+InvLiteralExact == (stage = "b" /\ C03Domain(ta)) => \A o \in AObjects : (C03_Exact(ta, o) \/ Dev_MergedSiblingLiterals(o))
 =============================================================================
